@@ -372,3 +372,80 @@ Definition restored (m : mech) (s s' : pstate) : Prop :=
 Definition fst3 {A B C} (x : A * B * C) : A := fst (fst x).
 Definition snd3 {A B C} (x : A * B * C) : B := snd (fst x).
 Definition str_read : bytes := [114;101;97;100].   (* "read" *)
+
+(* ======================== histories: several decorated calls on ONE connection object ======================== *)
+(* One call of a history: a decorated transport read / channel method whose body is one read ([h_leaf]), with the
+   limit that applies to it ([h_T]: timeout_transport resp. timeout_ops at the time of the call, 0 = none) and the
+   CONTEXT it is issued in: the platform flag and whether the issuing thread is the main thread.  The class name of
+   the transport belongs to the object and is the same for the whole history. *)
+Record hcall := mkH {
+  h_windows : bool;    (* decorators._IS_WINDOWS at the time of the call *)
+  h_main : bool;       (* the call is issued from the main thread *)
+  h_nt : bool;         (* Settings.NO_TERMINATE_ON_TIMEOUT at the time of the call *)
+  h_T : N;             (* the limit of this call *)
+  h_msg : bytes;       (* its timeout message *)
+  h_leaf : leaf        (* what the device does with the one read of the call *)
+}.
+
+(* the mechanism of a call: select_mech of THAT call's context; nothing of the calls before it *)
+Definition call_mech (tc : list bytes) (coro : bool) (cls : bytes) (c : hcall) : mech :=
+  select_mech tc coro cls (h_windows c) (h_main c).
+
+Definition run_call (m : mech) (c : hcall) (s : pstate) : result :=
+  run_wrapped m true (h_nt c) (h_T c) (h_msg c) (h_leaf c) s.
+
+(* the calls one after the other on the same object; the only thing handed from one call to the next is the
+   process state the previous call left behind.  A connection that an earlier timeout closed is opened again
+   before the next call.  Each entry: (mechanism used, result).  A call that never comes back ends the history. *)
+Fixpoint run_hist (tc : list bytes) (coro : bool) (cls : bytes) (calls : list hcall) (s : pstate)
+  : list (mech * result) :=
+  match calls with
+  | [] => []
+  | c :: r =>
+      let m := call_mech tc coro cls c in
+      let x := run_call m c (set_open true s) in
+      (m, x) :: match out x with Hang => [] | _ => run_hist tc coro cls r (rst x) end
+  end.
+
+(* NOT the code as it is - what the history theorems rule out: the mechanism worked out at the first call that
+   has a limit and kept on the connection object for all later calls *)
+Fixpoint run_hist_cached (tc : list bytes) (coro : bool) (cls : bytes) (cache : option mech)
+         (calls : list hcall) (s : pstate) : list (mech * result) :=
+  match calls with
+  | [] => []
+  | c :: r =>
+      let m := match cache with Some m' => m' | None => call_mech tc coro cls c end in
+      let cache' := if h_T c =? 0 then cache else Some m in
+      let x := run_call m c (set_open true s) in
+      (m, x) :: match out x with Hang => [] | _ => run_hist_cached tc coro cls cache' r (rst x) end
+  end.
+
+(* specification side: what a call of a history must do, from the call alone *)
+Definition call_ok (m : mech) (c : hcall) : Prop :=
+  match h_leaf c with
+  | Ret d _ | Exc d _ => h_T c = 0 \/ d < h_T c              (* the device answers within the limit *)
+  | l => 0 < h_T c /\ (m = MThread -> h_nt c = false /\ l = StallClosed)   (* silent device, a limit is set *)
+  end.
+Definition want_out (c : hcall) : outcome :=
+  match h_leaf c with
+  | Ret _ v => Returned v
+  | Exc _ e => Raised (EOther e)
+  | _ => Raised (ETimeout (h_msg c))
+  end.
+Definition want_dur (c : hcall) : N :=
+  match h_leaf c with Ret d _ | Exc d _ => d | _ => h_T c end.
+Definition want_open (c : hcall) : bool :=
+  match h_leaf c with Ret _ _ | Exc _ _ => true | _ => h_nt c end.
+(* (outcome, instant at which the call is over, transport open afterwards) of every call, from the calls and the
+   starting instant alone *)
+Fixpoint want_hist (calls : list hcall) (t : N) : list (outcome * N * bool) :=
+  match calls with
+  | [] => []
+  | c :: r => (want_out c, t + want_dur c, want_open c) :: want_hist r (t + want_dur c)
+  end.
+Definition seen (x : mech * result) : outcome * N * bool :=
+  (out (snd x), now (rst (snd x)), topen (rst (snd x))).
+(* what no call of a history may change *)
+Definition keeps (s s' : pstate) : Prop :=
+  handler s' = handler s /\ interval s' = interval s /\ workers s' = workers s /\ lock s' = lock s /\
+  tasks s' = tasks s.
